@@ -45,6 +45,28 @@ func Exec(s *world.Stack, w *world.World, rq world.Req, forPID string) *world.Ob
 			}
 		}
 	}
+	// a one-time credential that produced a session is spent for good, whatever storage says
+	if u2 := o.UIDAfter(); u2 != "" && u2 != o.UIDBefore() {
+		switch o.Req.Tag.Kind {
+		case "otplogin":
+			if sec := t.ByVal("otp", o.Req.Tag.Secret); sec != nil && !sec.Dead && sec.Owner == u2 {
+				sec.Dead, sec.Why, sec.Used = true, "used", true
+			}
+		case "totp_validate", "sms_validate":
+			if rc := o.Req.Tag.Recovery; rc != "" {
+				if sec := t.ByVal("rc", rc); sec != nil && !sec.Dead && sec.Owner == u2 {
+					sec.Dead, sec.Why, sec.Used = true, "used", true
+				}
+			}
+		}
+	}
+	if o.Req.Tag.Kind == "recover_end" {
+		if sec := t.ByVal("rtok", o.Req.Tag.Secret); sec != nil && !sec.Dead {
+			if r, ok := w.DB.Users[sec.Owner]; ok && prePw[sec.Owner] != r.Password {
+				sec.Dead, sec.Why, sec.Used = true, "used", true
+			}
+		}
+	}
 	t.ObserveIssuance(nil, o, w, forPID)
 	notePasswordChanges(w, prePw)
 	t.ObserveStorage(w)
